@@ -39,6 +39,9 @@ CLAIMS = {
  "C09": ("Stateful (model-based) generation of datagram/handler/idle/shutdown histories against the real servePacket loop on an in-memory PacketConn; invariants over the recorded deliveries, replies and associations (own client only, increasing sequence, no duplicates, replies to the right address, live association not replaced, served again after an association ended, clean shutdown) and no panic or wedge of the loop.",
          "The in-memory PacketConn fixes arrival order; the idle timeout constant is turned into a variable by a generated overlay of the current layer4/server.go (one token), nothing else in that file is altered; races between Close and the loop are sampled by volume.",
          "property-based testing (rapid state machine); history invariants"),
+ "C13": ("Generated batches of mixed connections, consumer timings and close instants against the public listener-wrapper API on loopback sockets; each connection's fate (delivered once with its exact unconsumed stream and TLS state, or never delivered and closed), Accept's behaviour after Close and the absence of left-over listener goroutines are checked.",
+         "Real sockets and scheduler; harness matchers/handlers select the fate of a connection from its first byte; goroutine leaks are detected by scanning runtime.Stack for layer4.(*listener) frames.",
+         "property-based testing (rapid) over connection mixes and schedules; per-connection reference outcome"),
 }
 NOT_YET = "check not built yet in this session (planned, see DESIGN.md); not claimed until it is"
 
